@@ -90,6 +90,12 @@ def run(cx):
     # the resend queue is examined head-first and the scan stops at the first entry that is not yet due
     from props.shared import heap_order
     heap_order(cx, "C12.i", ["resend"])
+    from props.shared import resend_ref_in_own_frame
+    resend_ref_in_own_frame(cx, "C12.j")
+    # "not transmitted again once the receiver has reported moving past the packet" compares window bases, which
+    # are circular ids
+    from props.idarith import id_arith_discipline
+    id_arith_discipline(cx, "C12.k")
 
 
 def drop_guard(cx, iid):
